@@ -154,6 +154,8 @@ class BaseNode(Node):
             value.unit = self.units_raw
             self.value = value
             return
+        if node.units_raw and not isinstance(value, (IntegerType, FloatType)):
+            raise Exception(f"Node '{self.name}' does not support units:", node.code)
         if isinstance(value, (IntegerType, FloatType)):
             if node.units_raw and not self.units_raw:
                 raise Exception(f"Node '{self.name}' is defined without units and cannot be assigned a value with units:", node.code)
